@@ -63,6 +63,8 @@ def _claim(s, pos, prefix):
             pos += 1
         if pos == h0:
             raise Invalid('claim id needs 1..40 lower-case hex digits', pos)
+        if pos - h0 == 40 and pos < len(s) and s[pos] in HEX:
+            raise Invalid('claim id longer than 40 hex digits', pos)
         claim_id = s[h0:pos]
     elif pos < len(s) and s[pos] == '$':
         pos += 1
